@@ -130,4 +130,66 @@ PROPS = {
         trusted=["crate bitvec / core as compiled"],
         assumptions=["the NOR simulator counts a program that would need a 0->1 transition"],
     ),
+    "C05": dict(
+        modules=["Fuota.Props.C05"],
+        closure=dict(quick=[4, 5], thorough=[4, 5, 6]),
+        suites=[dict(name="d6", cfg="matrix", keys=["res", "ops", "fw", "par"])],
+        rule="ring histories: random interleavings of start (also starting over a live session, with invalid "
+             "parameters, or losing power at a random operation), deliver, complete, cancel, reboot+recover, copy-done, "
+             "confirm, reject on 4, 5 and 6 slots, marks driven by what bl_boot_status reports; before every start the "
+             "oracle snapshots the slot holding the most recently confirmed image (lifecycle oracle) and compares it "
+             "byte for byte afterwards; the fallback query must answer that slot; corpus scenarios run first",
+        trusted=["crate bitvec / core as compiled"],
+        assumptions=["no sequence-number wrap-around (2^32-2 updates)"],
+    ),
+    "C12": dict(
+        modules=["Fuota.Props.C12"],
+        closure=dict(quick=[4, 5], thorough=[4, 5, 6]),
+        suites=[dict(name="d6", cfg="matrix", keys=["res"])],
+        rule="same ring histories as C05; after every step bl_boot_status and fallback_firmware are compared with the "
+             "lifecycle oracle kept by the harness (per slot: in progress / aborted / copy pending / ack pending / "
+             "confirmed with rank / rejected, updated from API results and from erase operations) and with the model",
+        trusted=["crate bitvec / core as compiled"],
+        assumptions=["at most one image awaiting copy or acknowledgement (the generator completes an update only when "
+                     "the bootloader status is idle)"],
+    ),
+    "C13": dict(
+        modules=["Fuota.Props.C13"],
+        closure=dict(quick=[4, 5], thorough=[4, 5, 6]),
+        suites=[dict(name="d6", cfg="matrix", keys=["res", "ops"]),
+                dict(name="d5w", cfg="matrix", keys=["res", "ops"])],
+        rule="ring histories (d6) and crash-inside-every-operation scenarios (d5w); after every try_recover / "
+             "cancel_all the oracle checks the parsed headers (only the returned pair in progress / nothing in "
+             "progress), that no confirmed / rejected / ack-pending slot was touched, that the returned pair was written "
+             "by one and the same start attempt (no chimera), and repeated recovery is compared for idempotence",
+        trusted=["crate bitvec / core as compiled"],
+        assumptions=["geometries with parity capacity >= 1"],
+    ),
+    "C17": dict(
+        modules=["Fuota.Props.C17"],
+        suites=[dict(name="d5m", cfg="matrix", keys=["res", "ops", "recv"]),
+                dict(name="d5m", cfg="checked", keys=["res", "ops", "recv"])],
+        rule="malformed fragment indices (0, n+1240005543, 2^14, 2^16, 2^32-1, ...) delivered at sampled positions of "
+             "sessions (before the first fragment, stage 1, stage 2, after completion) with consistent payloads; "
+             "arbitrary flash contents (legal codes in illegal combinations, duplicate / extreme sequence numbers, "
+             "oversize geometry, random bytes, random status tables) followed by validation, status, fallback, "
+             "recovery (twice) and start; release and overflow-checked builds; every call under catch_unwind",
+        trusted=["crate bitvec / core as compiled"],
+        assumptions=["payload length = fragment size (a wrong length is a documented assert)",
+                     "erase-block size divides the slot size (documented assert of Slot::clear)"],
+    ),
+    "C01": dict(
+        modules=["Fuota.Props.C01"],
+        suites=[dict(name="d5s", cfg="matrix", keys=["res", "recv", "total", "complete", "s0", "s1", "s2", "s3", "s4", "s5"]),
+                dict(name="d5s", cfg="matrix-ffr", driver_args=["--ffr"],
+                     keys=["res", "recv", "total", "complete", "s0", "s1", "s2", "s3", "s4", "s5"])],
+        rule="one scenario = device geometry (4..6 slots, slot size from the minimum upward, erase block dividing it), "
+             "ring position (preceding completed / cancelled updates), image with valid CRC, fragment size incl. sizes "
+             "straddling the 68-byte prefix, loss set up to and beyond capacity, delivery order (in order, shuffled, "
+             "coded first, duplicates, interleaved), number of coded fragments; compared per fragment: outcome and "
+             "counters; at the end: check result and digests of every slot; oracle: data region = image, validation, "
+             "header, counters monotone / bounded / exact at completion",
+        trusted=["crate bitvec / core as compiled"],
+        assumptions=["fragments consistent with the image (coded fragment k = XOR selected by row k)"],
+    ),
 }
